@@ -440,8 +440,12 @@ def run(pid, tier, seed, args, t0):
     ev = {"property_id": pid, "tier": tier, "seed": seed, "level": level, "coverage": cov,
           "assumptions": trusted + ENCODING_ASSUMPTIONS + [prop.get("note", "")],
           "wall_s": round(time.time() - t0, 2), "violations": len(violations)}
-    os.makedirs(os.path.join(ROOT, "evidence"), exist_ok=True)
-    with open(os.path.join(ROOT, "evidence", pid + ".json"), "w") as f:
+    # evidence/<id>.json describes a run on /repo itself; a run on another tree (VERIF_REPO=<scratch copy>, used when
+    # replaying seeded changes) writes next to it, under .cache/, so that it can never be mistaken for the former
+    alt = os.environ.get("VERIF_REPO") and os.path.realpath(os.environ["VERIF_REPO"]) != os.path.realpath("/repo")
+    ev_dir = os.path.join(ROOT, ".cache", "evidence-other-tree") if alt else os.path.join(ROOT, "evidence")
+    os.makedirs(ev_dir, exist_ok=True)
+    with open(os.path.join(ev_dir, pid + ".json"), "w") as f:
         json.dump(ev, f, indent=1, default=str)
 
     if args.update_baseline:
